@@ -295,7 +295,7 @@ def run_hook_level(prop, tier, seed, R, scripts_override=None):
             tp = os.path.join(work, "htrace_%d.ndjson" % i)
             vlib.run_harness(exe, ["uci-script", "--in", src, "--out", tp, "--rep", "1" if prop == "C09" else "0"])
             return tp, vlib.validate_trace("UciTrace", "UciTrace.cfg", tp, lambda e: e["ev"] == "start", timeout=3000, xmx="3g")
-        events = positions = reps = rep_true = 0
+        events = positions = reps = rep_true = seen = seen_rep = 0
         maxlen = 0
         for tp, (matched, results, rej) in vlib.parallel(shard, range(len(gens))):
             events += matched
@@ -309,6 +309,9 @@ def run_hook_level(prop, tier, seed, R, scripts_override=None):
                     for x in e.get("rep", []):
                         reps += 1
                         rep_true += 1 if x[1] else 0
+                    for x in e.get("seen", []):
+                        seen += 1
+                        seen_rep += 1 if x[1] else 0
                 if e["ev"] == "start":
                     R.coverage["traces_validated_against_impl"] += 1
             classify(prop, rej, R, "hook", lambda rj: script_from_segment(rj["segment"]))
@@ -322,9 +325,12 @@ def run_hook_level(prop, tier, seed, R, scripts_override=None):
             if g[1] is not None:
                 R.coverage["transitions"] += g[1].generated
         R.coverage["hook_level"] = {"events_matched": events, "position_commands": positions, "longest_move_list": maxlen,
-                                    "repetition_answers": reps, "repetition_answers_true": rep_true}
+                                    "repetition_answers": reps, "repetition_answers_true": rep_true,
+                                    "successors_entered_by_the_real_depth1_search": seen, "of_which_returned_by_the_repetition_rule": seen_rep}
         if prop == "C09" and scripts_override is None and rep_true == 0 and not R.violations:
             raise ToolError("vacuity: no generated history contained a successor that had already occurred twice")
+        if prop == "C09" and scripts_override is None and seen_rep == 0 and not R.violations:
+            raise ToolError("vacuity: the real search never returned through the repetition rule at ply 1")
         log("[%s] hook level: %d events matched, %d position commands, %d repetition answers (%d draws), %d violations" % (
             prop, events, positions, reps, rep_true, len(R.violations)))
     finally:
